@@ -47,7 +47,7 @@ CHECKS = {
   "text": "Theorems over Q: the generated duration table equals the documented one (w..t, dotted x3/2, tuplets x2/n; 31 entries both ways, "
           "injective, DURATION_TO_STR its inverse); limit_denominator(1000) is the identity on denominators <= 1000; notes store/augment/set "
           "durations exactly; onsets are partial sums; concatenation adds and repetition multiplies for all lists; a chord lasts its longest "
-          "part; augment(k) multiplies every note and the total; set_duration(d) totals exactly d; decompose_duration keeps a note's and a "
+          "part; augment(k) multiplies every note and the total; set_duration(d) totals exactly d, set_duration(0) never fails (also on a melody of length 0: the division by the melody's length was repaired); decompose_duration keeps a note's and a "
           "melody's total whenever every limit_denominator call on the way is exact (a computable guard, checked true on every in-domain "
           "case by the correspondence). CPython's limit_denominator is modelled exactly and compared out of domain too.",
   "note": "Trusted: Coq kernel; CPython Fraction arithmetic; adapters. 'note followed only by continuations' and positivity of the pieces are "
@@ -75,9 +75,15 @@ CHECKS = {
  "C20": {
   "text": "Theorems: Note.__eq__, Tonality.__eq__, Melody.__eq__ (equality of printed code), Chord.__eq__ (dict equality of parts, any "
           "order) and Score.__eq__ are reflexive, symmetric and transitive; equal notes have the same hashed tuple, equal tonalities the "
-          "same normal form, equal chords agree on every component of the hashed tuple; enharmonic spellings are equal. On the implementation "
+          "same normal form, equal chords agree on every component of the hashed tuple; enharmonic spellings are equal; the copy of a note "
+          "(Note.copy / Silence.copy / Continuation.copy: rebuilt through the constructor - whose duration rounding is an arbitrary function in "
+          "the model - then the lost fields assigned back) has every field of the original, so notes, melodies, chords and scores equal their "
+          "copies and notes hash like them; the copy methods before the repairs are characterised (equal iff the rounding leaves the duration "
+          "alone and a rest has octave 0 and no mode) and refuted by witnesses. The copy model is tied field by field to x.copy() on notes "
+          "reached through chained library operations (suffix chains, octave moves, dynamics, tags, modes). On the implementation "
           "the oracle checks, on triples differing in single fields, the relation laws, copy/deepcopy equality, hash equality of equal objects, "
-          "set/dict interchangeability and NoteIn/ChordIn/TonalityIn masks. Three hash defects were repaired in /repo.",
+          "set/dict interchangeability and NoteIn/ChordIn/TonalityIn masks. Three hash defects and three copy defects (rests lost their octave / mode, "
+          "copies rounded durations finer than 1/1000) were repaired in /repo.",
   "note": "Trusted: Coq kernel; Python hashes equal tuples/strings/frozensets equally; adapters. Score is unhashable (no hash clause). "
           "Float dynamics thresholds are modelled in exact rationals and verified exhaustively over amplitudes 0..127 and the 9 constants.",
  },
@@ -117,10 +123,15 @@ CHECKS = {
           "to d and are all non-negative; the library's builders (set_duration = limit_denominator(1000)) coincide with the exact figures "
           "whenever every piece is on the library's resolution; realisation (builder + final assertion) never fails there; totals of melodies "
           "are unchanged. Four defects were repaired in /repo (grupetto negative piece, retarded negative piece, roll/roll_fast TypeError, "
-          "interpolate on an already realised note). Two-tag combinations, tagged melodies/scores and their rendering are evaluated on the "
-          "implementation by the oracle.",
-  "note": "Trusted: Coq kernel; CPython Fractions; int(7*val/12) on floats = truncation. Combinations of two tags are not modelled (the second "
-          "builder works on a Melody through Melody.set_duration): oracle only.",
+          "interpolate on an already realised note). COMBINATIONS of tags (OrnAll: the builders run in sequence, each on the melody "
+          "the previous ones produced - Melody.set_duration = augment by the ratio, .n, .duration = sum of the pieces): for ANY list of tags (any "
+          "subset, order, repetition), any context and any d >= 0, zero included, the realisation in exact arithmetic never fails, sums to d and has "
+          "no negative piece; with the library's rounding whatever realize_tags returns has the note's duration; the pre-repair Melody.set_duration "
+          "is refuted on a zero-length note (ZeroDivisionError, repaired). The combination model WITH rounding is tied to Note.realize_tags on sets "
+          "of 1..4 tags (it reproduces the AssertionError cases of the open finding exactly). Tagged melodies/scores and their rendering are "
+          "evaluated on the implementation by the oracle.",
+  "note": "Trusted: Coq kernel; CPython Fractions; int(7*val/12) on floats = truncation. For combinations the theorem is about exact arithmetic; under rounding "
+          "the pieces of two stacked ornaments can stop adding up (open finding realize-exceeds-duration-resolution), which the rounded model reproduces.",
  },
  "C17": {
   "text": "Theorems in tatum units: applying a grid to a melody lasts exactly the grid, places the melody's notes exactly on the pulse "
@@ -155,7 +166,8 @@ CHECKS = {
           "(duration names, dynamics) agree. The model renders the text to the exact printed string (compared character for character with "
           "str(x)) and its evaluation is compared with Python's eval field by field. Oracle: Score.from_str, eval, to_text_file/from_file, "
           "pickle, deepcopy, custom chords and the DataFrame form give equal objects with the same sounding notes. Four printer defects "
-          "repaired (drum dynamics, pattern-note octave, amplitude 0 printed as the empty duration '.n', figure '5' dropped).",
+          "repaired (drum dynamics, pattern-note octave, amplitude 0 printed as the empty duration '.n', figure '5' dropped) and one reader defect "
+          "(Score.from_str nested a score when a custom chord followed two ordinary chords; scores mixing both kinds in any order are now generated).",
   "note": "Trusted: Coq kernel; gen_tables; Python's eval (lexing/parsing of the printed text is not modelled: the tie is string equality "
           "printer<->model plus object equality eval<->model); pickle, deepcopy, file I/O, pandas. Custom chords, files, pickling and the "
           "DataFrame form are decided by the oracle on the implementation only. Sound equality is up to the dynamics figure (the text "
@@ -249,7 +261,11 @@ CHECKS = {
           "10 signatures, flush-left and indented, first bar m0/m1/m3/m5/m12. Figures: for the 104 diatonic figures x 12 keys the answer of roman_parser.analyze_one_chord is regenerated into a table on "
           "every run, and a kernel sweep proves that each returned chord has, by the pitch model of C01/C02, exactly the pitch classes and bass of "
           "the standard reading (stacked thirds of the key's scale; minor keys: V and vii from the harmonic scale); the same cases are also "
-          "checked end to end by the oracle (analyze_one_chord + Chord pitches). The first-bar renumbering defect was repaired.",
+          "checked end to end by the oracle (analyze_one_chord + Chord pitches). The stated key (KeyText: tonic letter, then any '#', 'b', '-', "
+          "with or without the colon) reads as the letter's pitch class moved by the accidentals, minor iff the letter is lower case - the letter b "
+          "included (theorem; the pre-repair reader took 'b:' and 'bb:' for major keys: refuted); tied to CurrentTonality on all 14 letters x 6 "
+          "accidental spellings, inline and as a 'Tonality:' header, with figures checked against the textbook reading in the written key. "
+          "The first-bar renumbering defect and the b:/bb: key defect were repaired.",
   "note": "Trusted: Coq kernel; the line/space tokeniser (text is generated from tokens); float bar lengths (exact for these signatures). "
           "The figure PARSER (regexes, replacement tables) is not modelled: its graph on the diatonic domain is regenerated and proved correct; "
           "chromatic, applied and special figures (N6, Ger, It, Fr) are outside; i7 / v7 in minor are left out (natural vs harmonic reading). Signature "
